@@ -446,8 +446,8 @@ SPEED = {"uvl": 1, "afm": 3, "json": 4, "fide": 4, "glencoe": 4}   # relative bu
 def plan_for(tier, fmt="uvl"):
     k = SPEED[fmt]
     cyc = {"uvl": (3, 6), "afm": (4, 6), "json": (6, 8), "fide": (6, 8), "glencoe": (6, 8)}[fmt]
-    return [{"shard": i, "nshards": NSHARDS, "bases": (3 if tier == "quick" else 30) * k,
-             "per_class": 1 if tier == "quick" else 2, "multi": (12 if tier == "quick" else 150) * k,
+    return [{"shard": i, "nshards": NSHARDS, "bases": (3 if tier == "quick" else 12) * k,
+             "per_class": 1 if tier == "quick" else 2, "multi": (12 if tier == "quick" else 80) * k,
              "cycles": cyc[0] if tier == "quick" else cyc[1],
              "large": (1 if fmt in ("uvl", "afm") else 4) if tier == "quick" else (6 if fmt in ("uvl", "afm") else 20),
              "sweep": (2500 if tier == "quick" else 10 ** 9)} for i in range(NSHARDS)]
